@@ -33,7 +33,11 @@ def frac(tok):
 
 
 def make_dims(spec):
-    t = Dimension(name="time", letter="t", items=list(spec["items"]), dtype=int)
+    its = list(spec["items"])
+    if any(isinstance(i, str) for i in its):
+        t = Dimension(name="time", letter="t", items=[float(frac(str(i))) for i in its], dtype=float)   # half years
+    else:
+        t = Dimension(name="time", letter="t", items=its, dtype=int)
     ds = [t]
     for (l, n), k in zip(EXTRA, spec["extra"]):
         ds.append(Dimension(name=n, letter=l, items=[f"{l}{i}" for i in range(k)], dtype=str))
@@ -45,6 +49,8 @@ def make_prm(p, dims):
         return frac(p["v"])
     sub = dims.get_subset(tuple(p["dims"]))
     vals = np.array([frac(v) for v in p["vals"]], dtype=float).reshape(sub.shape)
+    if p.get("int") and np.all(vals == np.round(vals)):
+        vals = vals.astype(int)          # whole years, held with an integer dtype
     return FlodymArray(dims=sub, values=vals)
 
 
